@@ -5,4 +5,10 @@ pub mod bits;
 pub mod rng;
 pub mod runner;
 
+pub mod ty;
+pub mod val;
+pub mod machine_out;
+
+pub mod c10;
+pub mod c11;
 pub mod c13;
